@@ -343,6 +343,93 @@ def minimal_msg(kind):
     }.get(kind, (kind,))
 
 
+# ---- known findings D24 / D25: the EXACT wrong answer, derived from the model's conforming one ---------------
+
+def _known_wrong_msg(text, pv):
+    """(text the shipped parser is known to return instead of the conforming `text`, ids, truncates)
+    D24: nVersion 10300 comes back as 300.
+    D25: the `protover` handed to stream_deserialize is dropped: every parsed CAddress is a `cls()`, so it reports
+         PROTO_VERSION 60002 instead of `pv`; and an `addr` payload written for pv < 31402 (26-byte entries, no time)
+         is read with 30-byte entries: SerializationTruncationError (the payload is always too short)."""
+    m = parse_msg(text)
+    ids, trunc = set(), False
+    if m[0] == 'version':
+        m = list(m)
+        if m[1] == 10300:
+            m[1] = 300
+            ids.add('D24-version-10300-read-as-300')
+        for i in (4, 5):
+            if m[i] is not None and m[i][0] == pv != 60002:
+                m[i] = (60002,) + tuple(m[i][1:])
+                ids.add('D25-caddress-protover-time-gate-dead')
+        m = tuple(m)
+    elif m[0] == 'addr' and pv != 60002 and m[1] and all(x[0] == pv for x in m[1]):
+        ids.add('D25-caddress-protover-time-gate-dead')
+        if pv < 31402:
+            trunc = True
+        m = ('addr', [(60002,) + tuple(x[1:]) for x in m[1]])
+    return show_msg(m), ids, trunc
+
+
+def known_finding(op, a, io, mo):
+    """signature id iff `io` is EXACTLY the known wrong behaviour corresponding to the model's conforming answer
+    `mo` (every other entry identical); otherwise None — a different wrong answer is a VIOLATION"""
+    try:
+        if op == 'c18.frombytes':
+            pv = int(a[2]) if len(a) > 2 else 60002
+            if not mo.startswith('W:') or mo[2:].startswith(('err:', 'none')):
+                return None
+            exp, ids, trunc = _known_wrong_msg(mo[2:], pv)
+            exp = 'err:trunc' if trunc else exp
+            return sorted(ids)[0] if len(ids) == 1 and io == exp else None
+        if op == 'c18.parse':
+            pv = int(a[2]) if len(a) > 2 else 60002
+            ids, exp = set(), []
+            for e in mo.split('~'):
+                f = e.split('@')
+                if len(f) == 3 and f[2] == 'same' and f[1] != 'none':
+                    t, i2, trunc = _known_wrong_msg(f[1], pv)
+                    ids |= i2
+                    if trunc:
+                        exp.append('err:trunc@' + f[0])
+                        break
+                    re_ = 'diff' if 'D24-version-10300-read-as-300' in i2 else 'same'
+                    exp.append('%s@%s@%s' % (f[0], t, re_))
+                else:
+                    exp.append(e[:-len('@payload')] if e.endswith('@payload') else e)
+            return sorted(ids)[0] if len(ids) == 1 and io.split('~') == exp else None
+        if op == 'c18.hist':
+            psteps = [st.split(' ') for st in a if st[:2] == 'P ']
+            outs_i, outs_m = io.split('~'), mo.split('~')
+            if len(outs_i) != len(outs_m):
+                return None
+            # outputs of P steps, in order, are those of the form pos@msg / err:..@pos; map by walking the steps
+            kinds = [st[0] for st in a if st[:1] in 'FSAP']
+            if len(kinds) != len(outs_m):
+                return None
+            ids, pi = set(), 0
+            for k, (x, y) in enumerate(zip(outs_i, outs_m)):
+                if kinds[k] != 'P':
+                    if x != y:
+                        return None
+                    continue
+                hd = psteps[pi]
+                pi += 1
+                pv = int(hd[3]) if len(hd) > 3 else 60002
+                f = y.split('@')
+                if len(f) == 2 and not y.startswith('err:') and f[1] != 'none':
+                    t, i2, trunc = _known_wrong_msg(f[1], pv)
+                    ids |= i2
+                    if x != ('err:trunc@' + f[0] if trunc else f[0] + '@' + t):
+                        return None
+                elif x != y:
+                    return None
+            return sorted(ids)[0] if len(ids) == 1 else None
+    except Exception:  # noqa: BLE001 - unparsable answer: not the known behaviour
+        return None
+    return None
+
+
 class HarnessError(RuntimeError):
     """a bug of this harness (not of the code under test): stops the check with an infrastructure error"""
 
@@ -524,12 +611,13 @@ class C18(Prop):
                 o = self.to_obj(parse_msg(a[1]), int(a[2]) if len(a) > 2 else 0)
                 return self._with_chain(a[0], lambda: o.to_bytes().hex())
             return guarded(f)
+        kw = dict(protover=int(a[2])) if op in ('c18.parse', 'c18.frombytes') and len(a) > 2 else {}
         if op == 'c18.parse':
-            return self._with_chain(a[0], lambda: self.parse_stream(bytes.fromhex(a[1])))
+            return self._with_chain(a[0], lambda: self.parse_stream(bytes.fromhex(a[1]), kw))
         if op == 'c18.frombytes':
             def f():
                 with contextlib.redirect_stdout(self.devnull):
-                    o = self.M.MsgSerializable.from_bytes(bytes.fromhex(a[1]))
+                    o = self.M.MsgSerializable.from_bytes(bytes.fromhex(a[1]), **kw)
                 return 'none' if o is None else show_msg(self.from_obj(o))
             return self._with_chain(a[0], lambda: guarded(f))
         if op == 'c18.hist':
@@ -640,9 +728,10 @@ class C18(Prop):
                     if f is None:
                         out.append('nostream')
                         continue
+                    pkw = dict(protover=int(hd[3])) if len(hd) > 3 else {}
                     try:
                         with contextlib.redirect_stdout(self.devnull):
-                            o = self.M.MsgSerializable.stream_deserialize(f)
+                            o = self.M.MsgSerializable.stream_deserialize(f, **pkw)
                     except RecursionError:
                         out.append('err:py:RecursionError@%d' % f.tell())
                         continue
@@ -660,14 +749,14 @@ class C18(Prop):
             self.bitcoin.SelectParams('mainnet')
         return '~'.join(out)
 
-    def parse_stream(self, data):
+    def parse_stream(self, data, kw={}):
         f = io.BytesIO(data)
         out = []
         while f.tell() < len(data):
             start = f.tell()
             try:
                 with contextlib.redirect_stdout(self.devnull):
-                    o = self.M.MsgSerializable.stream_deserialize(f)
+                    o = self.M.MsgSerializable.stream_deserialize(f, **kw)
             except RecursionError:
                 out.append('err:py:RecursionError@%d' % f.tell())
                 return '~'.join(out)
@@ -741,7 +830,7 @@ class C18(Prop):
         # (h) histories on live objects: state surviving across calls (see c18_hist.py); every type in every tier
         hrng = random.Random(rng.getrandbits(64))
         kinds = [k for i, k in enumerate(NAMES) if i % nshards == shard] if not big else list(NAMES)
-        for tag, steps in H.histories(hrng, sys.modules[__name__], kinds, big):
+        for tag, steps in H.histories(hrng, sys.modules[__name__], kinds, big, known=(shard == 0)):
             yield mk('c18.hist', *steps, tag=tag)
         # (a) framing: every type x generated values (in and out of range) x chains
         per_type = max(3, (1200 if big else 12) * 16 // nshards // 4)
@@ -762,6 +851,34 @@ class C18(Prop):
                 m = shape_version(tuple(m)) if rng.random() < 0.7 else tuple(m)
                 yield mk('c18.frame', rng.choice(CHAINS), show_msg(m), rng.randrange(64), tag='frame:version-boundary')
                 wf.append((rng.choice(CHAINS), m))
+        # addresses of another protocol version, read back by a reader that is told that version
+        # (stream_deserialize(f, protover=pv)); below 31402 an addr entry has no time field.  KNOWN finding D25:
+        # the shipped parser ignores `protover`.  (Fixed enumeration, partitioned by index.)
+        wf_pv = []
+        for pi, (kind, pv) in enumerate((k, v) for k in ('addr', 'version')
+                                        for v in (0, 209, 31401, 31402, 31403, 60001, 70015)):
+            if pi % nshards != shard and not big:
+                continue
+
+            def old(a, pv=pv):
+                return (pv, 0 if pv < 31402 or kind == 'version' else a[1]) + tuple(a[2:])
+            if kind == 'addr':
+                m = ('addr', [old(gen_addr(rng)) for _ in range(rng.choice([1, 2, 3, 0xfd]))])
+            else:
+                m = list(gen_msg(rng, 'version'))
+                m[4], m[5] = old(m[4]), old(m[5])
+                m = tuple(m)
+            ch = rng.choice(CHAINS)
+            yield mk('c18.frame', ch, show_msg(m), rng.randrange(64), tag='frame:protover')
+            wf_pv.append((ch, m, pv))
+        for (ch, m, pv), b in zip(wf_pv, self.model_frames([(c2, m2) for c2, m2, _ in wf_pv])):
+            if b is None:
+                continue
+            yield mk('c18.parse', ch, b.hex(), pv, tag='roundtrip-protover:' + m[0])
+            yield mk('c18.frombytes', ch, b.hex(), pv, tag='frombytes-protover')
+            yield mk('c18.parse', ch, (py_frame(MAGIC[ch], b'ping', b'\x07' * 8) + b).hex(), pv,
+                     tag='stream-protover')
+            yield mk('c18.parse', ch, b.hex(), tag='protover-frame-read-as-60002')
         # CompactSize switch points 0xffff/0x10000 on a byte string (and, thorough, on a vector count)
         if shard == 1 % nshards:
             for ln in (0xffff, 0x10000, 0x10001):
@@ -958,6 +1075,10 @@ class C18(Prop):
 
     def signature(self, c, io, mo):
         op, a = c['op'], c['args']
+        if not io.startswith('harness:'):
+            kf = known_finding(op, a, io, mo)
+            if kf:
+                return kf
         def low_version(txt):
             f = txt.split(' ')
             return f[0] == 'version' and int(f[1]) < 70001
